@@ -12,7 +12,7 @@ from vf import gen, refsem
 from vf.envs import FULL_DOMAIN, MATS, QUICK_DOMAIN, SPECIAL_NAMES, Counter, base_env
 from vf.localise import localise
 from vf.run import Check, Res
-from vf.spec import C, S, T, V, build, show, variables_of, walk
+from vf.spec import C, S, T, V, build, show, to_spec, variables_of, walk
 
 NOT_EVALUABLE = ("Substitution", "Derivative", "Slice", "Wildcard", "DotWildcard", "StarWildcard",
                  "FunctionSymbol")
@@ -70,6 +70,56 @@ def run_variant(variant, expr, env):
     if variant == "evaluate":
         return evaluate(expr, env)
     return evaluate_kw(expr, **env)
+
+
+# {{{ memory layouts of object arrays
+
+ARRAY_LAYOUTS = ("c", "transposed", "fortran", "every-second-row", "reversed-columns",
+                 "3d-transposed", "broadcast-view", "1d-reversed")
+
+
+def layout_failure(kind, variant):
+    """An object array is evaluated element by element into an array of the same shape, whatever
+    its strides are (views: transposed, Fortran order, stepped, reversed, broadcast)."""
+    import numpy as np
+    import pymbolic.primitives as p
+    x, y = p.Variable("x"), p.Variable("y")
+    elems = [x, y, p.Sum((x, y)), 2, p.Product((x, y)), p.Sum((y, p.Product((-1, x)))),
+             p.Power(x, 2), p.Quotient(y, 2)]
+    base = np.empty((2, 4), dtype=object)
+    for k, e in enumerate(elems):
+        base[k // 4, k % 4] = e
+    arr = {
+        "c": lambda: base,
+        "transposed": lambda: base.T,
+        "fortran": lambda: np.asfortranarray(base),
+        "every-second-row": lambda: np.concatenate([base, base, base])[::2],
+        "reversed-columns": lambda: base[:, ::-1],
+        "3d-transposed": lambda: base.reshape(2, 2, 2).transpose(2, 0, 1),
+        "broadcast-view": lambda: np.broadcast_to(base[0], (3, 4)),
+        "1d-reversed": lambda: base[1][::-1],
+    }[kind]()
+    env = dict(base_env())
+    env.update(x=Fraction(3, 2), y=-2)
+    try:
+        got = run_variant(variant, arr, dict(env))
+    except RecursionError:
+        raise
+    except Exception as e:  # noqa: BLE001
+        return ("array-layout", f"{kind} view of shape {arr.shape}: raised {e!r}")
+    if not isinstance(got, np.ndarray) or got.shape != arr.shape:
+        return ("array-layout", f"{kind} view of shape {arr.shape}: result is "
+                f"{type(got).__name__} of shape {getattr(got, 'shape', None)}")
+    from pymbolic.mapper.evaluator import evaluate
+    for idx in np.ndindex(arr.shape):
+        want = arr[idx] if not isinstance(arr[idx], p.Expression) else \
+            refsem.evaluate(to_spec(arr[idx]), dict(env))
+        if got[idx] is None or got[idx] != want:
+            return ("array-layout", f"{kind} view of shape {arr.shape}: element {idx} is "
+                    f"{got[idx]!r}, expected {want!r}")
+    return None
+
+# }}}
 
 
 # {{{ a number class registered at run time
@@ -238,7 +288,8 @@ class C02(Check):
             "UserDict, __getitem__-only) bound before / after / around the construction of the "
             "evaluator x 3 entry points x 7 trees; 7 trees with Fraction constants x 4 entry points "
             "before / while / after Fraction is a registered constant class (registered at run time, "
-            "after the mapper modules were imported). A case is non-trivial when the reference semantics yields a value "
+            "after the mapper modules were imported); object arrays in 8 memory layouts (transposed, "
+            "Fortran order, stepped, reversed, broadcast views) through the plain evaluator. A case is non-trivial when the reference semantics yields a value "
             "(not an error) in at least one environment; distinct = distinct trees.")
     assumptions = [
         "reference semantics vf/refsem.py is the intended denotation (one plain Python operator "
@@ -265,6 +316,9 @@ class C02(Check):
             ("hash-twins", lambda: (("d2", s) for s in gen.twin_trees())),
             ("environment-kinds", self.gen_envkinds),
             ("registered-constant-class", self.gen_regconst),
+            ("array-layouts", lambda: (("layout", k, v) for k in ARRAY_LAYOUTS
+                                       for v in ("plain",))),     # the memoizing entry points
+                                                                   # refuse arrays (recorded)
         ]
         if tier == "thorough":
             fams.append(("nest3", lambda: (("n3", s) for _, s in
@@ -342,6 +396,13 @@ class C02(Check):
     # -- the check ----------------------------------------------------------------------------
     def check_item(self, family, item, tier):
         r = Res()
+        if item[0] == "layout":
+            r.evals += 1
+            r.keys.append(item)
+            f = layout_failure(item[1], item[2])
+            if f:
+                r.fail(f[0], f"{f[0]}|{item[1]}|{item[2]}", f[1])
+            return r
         if item[0] == "regconst":
             r.evals += 1
             r.keys.append(item)
